@@ -4,6 +4,7 @@ from checks import common, attempt_driver
 
 def body(chk):
     attempt_driver.run(chk, 'C02')
+    attempt_driver.run_pair(chk, 'C02')      # two scenarios whose steps have the same text: each step is resolved as itself
     # the attempt takes "no match / ambiguous / one definition" from step::Collection::find (an oracle above): the real find
     # is decided here as well, because "a step matching several definitions is Failed as ambiguous" depends on it
     from checks import c17
